@@ -1,4 +1,4 @@
-HOOK_COMMITS = ["cbdc291"]
+HOOK_COMMITS = ["cbdc291", "c5df4fc", "57485bb", "21f5b8c", "b16838a", "6999814"]
 NOT_APPLICABLE = {}
 CLAIMS = {
  'C13': dict(category='proof', ref='5 Core C, 8 C13',
